@@ -83,6 +83,81 @@ func c03Classify(s *prog.Step, class string) (string, string) {
 	return "property", "access:" + s.Op.Kind + ":" + class
 }
 
+// c03MultipartNext: multipart operations by non-admin callers under random bucket policies (incl. key- and
+// prefix-specific Allow / Deny statements): CreateMultipartUpload, UploadPart, UploadPartCopy (sources in the
+// same and in another bucket, plain and over-escaped spellings of the copy source), ListParts,
+// ListMultipartUploads, Complete, Abort. Every answer compared with Model.Gw.step.
+func c03MultipartNext(g *prog.Gen, idx int, hist []*prog.Step) *prog.Op {
+	bs := []string{"bkt-a", "bkt-b"}
+	keys := []string{"k1", "dir/k2", "dir/sub/k3", "obj.txt"}
+	n := len(hist)
+	total := 24 + idx%12
+	switch {
+	case n < 2:
+		return &prog.Op{Kind: "createBucket", Caller: []string{"root", "u:up1"}[g.R.Intn(2)], B: bs[n], Valid: true}
+	case n < 2+len(keys):
+		return &prog.Op{Kind: "putObject", Caller: "root", B: bs[(n-2)%2], K: keys[n-2], Put: &prog.PutSpec{Data: []prog.Seg{{Seed: 3300 + n, Off: 0, Len: 300}}}, Valid: true}
+	case n < 4+len(keys):
+		b := bs[n-2-len(keys)]
+		return &prog.Op{Kind: "putBucketPolicy", Caller: "root", B: b, Policy: g.Policy(b), Valid: true}
+	case n >= total:
+		return nil
+	}
+	ups := c08Uploads(hist)
+	var open []*c08Upload
+	for _, u := range ups {
+		if !u.done {
+			open = append(open, u)
+		}
+	}
+	caller := []string{"root", "u:up1", "u:usr1", "u:usr2", "u:adm1"}[g.R.Intn(5)]
+	b := bs[g.R.Intn(2)]
+	bucketOf := func(u *c08Upload) string {
+		for _, s := range hist {
+			if s.Op.Kind == "createUpload" && s.Obs.NewID == u.id {
+				return s.Op.B
+			}
+		}
+		return b
+	}
+	r := g.R.Intn(100)
+	if len(open) == 0 && r >= 20 {
+		r = 0
+	}
+	switch {
+	case r < 20:
+		return &prog.Op{Kind: "createUpload", Caller: caller, B: b, K: keys[g.R.Intn(len(keys))], Put: &prog.PutSpec{}, Valid: true}
+	case r < 35:
+		u := open[g.R.Intn(len(open))]
+		return &prog.Op{Kind: "uploadPart", Caller: caller, B: bucketOf(u), K: u.key, UpID: u.id, Num: 1 + g.R.Intn(3), Data: []prog.Seg{{Seed: 3400 + n, Off: 0, Len: 1 + g.R.Intn(400)}}}
+	case r < 70:
+		u := open[g.R.Intn(len(open))]
+		return &prog.Op{Kind: "uploadPartCopy", Caller: caller, B: bucketOf(u), K: u.key, UpID: u.id, Num: 1 + g.R.Intn(3),
+			SB: bs[g.R.Intn(2)], SK: keys[g.R.Intn(len(keys))], SrcOver: g.R.Chance(50)}
+	case r < 78:
+		u := open[g.R.Intn(len(open))]
+		return &prog.Op{Kind: "listParts", Caller: caller, B: bucketOf(u), K: u.key, UpID: u.id}
+	case r < 84:
+		return &prog.Op{Kind: "listUploads", Caller: caller, B: b}
+	case r < 92:
+		u := open[g.R.Intn(len(open))]
+		o := &prog.Op{Kind: "completeUpload", Caller: caller, B: bucketOf(u), K: u.key, UpID: u.id}
+		for k := 1; k <= 3; k++ {
+			if et, ok := u.parts[k]; ok {
+				o.Parts = append(o.Parts, prog.PartRef{Num: k, ETag: et})
+				break // single-part completions: no minimum part size
+			}
+		}
+		if len(o.Parts) == 0 {
+			return &prog.Op{Kind: "listParts", Caller: caller, B: bucketOf(u), K: u.key, UpID: u.id}
+		}
+		return o
+	default:
+		u := open[g.R.Intn(len(open))]
+		return &prog.Op{Kind: "abortUpload", Caller: caller, B: bucketOf(u), K: u.key, UpID: u.id}
+	}
+}
+
 func init() {
 	checks["c03"] = checkDef{"C03",
 		"(1) discriminating-policy programs: for every stage-1 op template × every policy action, a policy allowing exactly one action on one resource shape to one caller (optionally with a Deny on the object), then that caller performs the op and root observes the effect; (2) random programs over buckets with different owners, canned ACLs, ownership settings and random valid policies, callers root/admin/userplus/user. Each step compared with Model.Gw.step. Non-trivial = program reaches an existing bucket; distinct by op list.",
@@ -94,5 +169,7 @@ func init() {
 			return runPrograms(a, res, progOpts{name: "discriminating", prop: "C03", programs: n, gen: c03Discriminating, classify: c03Classify, seedOff: 3})
 		}, func(a lib.Args, res *lib.Result) error {
 			return runPrograms(a, res, progOpts{name: "random-acl-policy", prop: "C03", programs: tierN(a, 400, 6000), maxOps: 40, classify: c03Classify, seedOff: 33})
+		}, func(a lib.Args, res *lib.Result) error {
+			return runPrograms(a, res, progOpts{name: "multipart-under-policy", prop: "C03", programs: tierN(a, 60, 1500), next: c03MultipartNext, classify: c03Classify, seedOff: 34})
 		}}}
 }
